@@ -30,6 +30,8 @@ def make_jobs(ctx):
             jobs.append(wasi_job(ctx, "W.%s_get.buf%d" % (tag, bp), src, "h_vec_get", ["wasi.c:%s_get" % fn], defines=defs + ["GMEM=40", "ARGS_BP=%du" % bp],
                                  bounded=B + "; string buffer at guest address %d, pointer array anywhere" % bp, unwind=42, unwindset=US))
     jobs.append(wasi_job(ctx, "W.init_vectors", src, "h_init_vectors", ["wasi.c:wasiInit"], defines=["GMEM=40"], bounded="environment of <= 3 strings of <= 2 bytes (any byte values, also empty strings)", unwind=42, unwindset="wasiInit.0:5"))
+    jobs.append(wasi_job(ctx, "W.convertTimeval", src, "h_convert_timeval", ["wasi.c:convertTimeval"], defines=["GMEM=8"], unwind=4, solver="z3"))
+    jobs.append(wasi_job(ctx, "W.addTimevals", src, "h_add_timevals", ["wasi.c:addTimevals"], defines=["GMEM=8"], unwind=4, solver="z3"))
     jobs.append(wasi_job(ctx, "W.clock_time_get", src, "h_clock", ["wasi.c:clock_time_get", "wasi.c:wasiClockTimeGet"], defines=["GMEM=32"], unwind=34,
                          bounded="seconds < 16 in this marshalling obligation; the conversion itself is W.convertTimespec (all values)"))
     jobs.append(wasi_job(ctx, "W.clock_res_get", src, "h_clock", ["wasi.c:clock_res_get", "wasi.c:wasiClockResGet"], defines=["GMEM=32", "CLOCK_RES"], unwind=34,
@@ -70,6 +72,9 @@ def make_jobs(ctx):
     jobs.append(wasi_job(ctx, "RG.thread_spawn_interference", src, "h_spawn", ["wasi.c:wasi__threadX2Dspawn"], defines=["GMEM=32", "SPAWN_INTERFERENCE"], unwind=34,
                          bounded="export list of <= 3 entries; one interfering spawn",
                          info=dict(note="another complete spawn is executed inside the newChild callback: identifiers must still differ")))
+    # the instance a spawned thread runs on is created by the generated <module>NewChild (instance->common.newChild): contract on the generated code
+    from . import c06
+    jobs += c06.variant_jobs(ctx, "shared", False, True, True, only=["h_newchild"])
     return jobs
 
 
